@@ -57,7 +57,7 @@ const ndecl = 7
 func items(p *gocore.Prog) []string {
 	pre := gocore.Prelude
 	// the prelude is cut into its declarations
-	type0 := "type T struct{ a, b int }\n"
+	type0 := gocore.TypeDecl
 	vars := "var g0, g1 = 1, 2\nvar t = T{3, 4}\nvar arr = [2]int{5, 6}\n"
 	helpers := pre[strings.Index(pre, "func helper()"):]
 	fd := p.FuncDecls()
